@@ -266,7 +266,8 @@ class C14(Pipeline):
                 f.write(tmpl.replace("%SAMPLES%", rows))
             shutil.copy(os.path.join(vk.SPECS, "RelayGateFees.tla"), d)
             os.makedirs(os.path.join(d, "tmp"))
-            env = dict(os.environ, JVM_ARGS="-Djava.io.tmpdir=%s" % os.path.join(d, "tmp"))
+            # the launcher creates its SANY* directory with `mktemp -t`, i.e. under $TMPDIR
+            env = dict(os.environ, TMPDIR=os.path.join(d, "tmp"))
             try:
                 p = subprocess.run(["apalache-mc", "check", "--length=0", "--inv=SamplesAgree", "--out-dir=" + os.path.join(d, "out"), "FeeSamples.tla"],
                                    cwd=d, env=env, stdout=subprocess.PIPE, stderr=subprocess.STDOUT, text=True, timeout=timeout)
